@@ -108,9 +108,10 @@ static void check_next(Case &c, const Str &p)
         }
     // without a real component the skip loop stops on the terminator, where
     // path_is_single_dot reads path[1]
-    if (!first && pad_on())
+    bool pad = !first && pad_on();
+    if (pad)
         c.known_hit(K_SINGLE_DOT);
-    PathBlk b(p, pad_on());
+    PathBlk b(p, pad);
     unsigned int len = 0xdead;
     const char *r = path_next(b.c(), &len);
     if (!first)
@@ -145,13 +146,34 @@ static size_t ref_iterate(const Str &p, size_t from)
 }
 static void check_iterate(Case &c, const Str &p)
 {
+    // the first step alone, on an unpadded block whenever it does not end on
+    // the terminator
+    {
+        size_t want = ref_iterate(p, 0);
+        bool pad = want == p.size() && pad_on();
+        if (pad)
+            c.known_hit(K_SINGLE_DOT);
+        PathBlk b(p, pad);
+        const char *r = path_iterate(b.c());
+        if (want == (size_t)-1)
+            VP_CHECK(r == nullptr, "path_iterate_value", "path_iterate(\"%s\") got offset %td want NULL",
+                     p.c_str(), r - b.c());
+        else
+            VP_CHECK(r == b.c() + want, "path_iterate_value",
+                     "path_iterate(\"%s\") got %s%td want offset %zu", p.c_str(),
+                     r ? "offset " : "NULL ", r ? r - b.c() : (std::ptrdiff_t)0, want);
+    }
+    if (p.empty())
+        return;
+    // the whole chain down to NULL: its last step but one always ends on the
+    // terminator
+    if (pad_on())
+        c.known_hit(K_SINGLE_DOT);
     PathBlk b(p, pad_on());
     size_t at = 0;
     for (size_t step = 0; step < p.size() + 3; step++)
     {
         size_t want = ref_iterate(p, at);
-        if (want == p.size() && pad_on())
-            c.known_hit(K_SINGLE_DOT);
         const char *r = path_iterate(b.c() + at);
         if (want == (size_t)-1)
         {
@@ -201,9 +223,13 @@ static void check_remove_prefix(Case &c, const Str &path, const Str &prefix)
     while (i < np.size() && i < nq.size() && np[i].name == nq[i].name)
         i++;
     size_t want = i < np.size() ? np[i].off : path.size();
-    if (i > 0 && (i == np.size() || i == nq.size()) && pad_on())
+    // after i matched nodes both pointers have been iterated i times; the one
+    // that ran out of nodes stands on its terminator
+    bool pad_p = (null_deref || (i > 0 && i == np.size())) && pad_on();
+    bool pad_q = (null_deref || (i > 0 && i == nq.size())) && pad_on();
+    if (pad_p || pad_q)
         c.known_hit(K_SINGLE_DOT);
-    PathBlk bp(path, pad_on()), bq(prefix, pad_on());
+    PathBlk bp(path, pad_p), bq(prefix, pad_q);
     const char *r = path_remove_prefix(bp.c(), bq.c());
     VP_CHECK(r == bp.c() + want, "path_remove_prefix_value",
              "path_remove_prefix(\"%s\",\"%s\") got %s%td want offset %zu", path.c_str(),
